@@ -55,7 +55,8 @@ class Plain(object):
 
 
 TEXTS_PLAIN = ['hello', '', 'plain text with spaces', 'caf\xe9 ☃ 日本', 'a\nb\nc', 'x' * 5000, 'null', '42', 'true', '"quoted"',
-               'key: value', 'not {json}', 'a < b & c > d', 'ends with }', 'tab\tsep', '\x00\x01\x7f']
+               'key: value', 'not {json}', 'a < b & c > d', 'ends with }', 'tab\tsep', '\x00\x01\x7f',
+               ' ', '\n', ' \t\r\n ', '\r\n', '\x0b\x0c', '\u00a0', '\u2028', ' x ', '\n\nx']
 TEXTS_HTML = ['<html><body>hi</body></html>', '<!doctype html><html><head><title>t</title></head><body>é</body></html>',
               '<!DOCTYPE html>\n<html lang="en"><body><p>x</p></body></html>', '<html>\n</html>']
 # JSON text with whitespace around it is JSON text (RFC 8259: ws value ws)
@@ -93,11 +94,14 @@ def json_native(rng, depth=0):
     if r == 3:
         return rng.chance(0.5)
     if r in (4, 5):
-        return rng.pick(['', 's', 'caf\xe9', '☃ 日本', 'with "quotes" and \\ backslash', '</script>', 'line\nbreak', '\x00\x1f', 'a' * 200])
+        return rng.pick(['', 's', 'caf\xe9', '☃ 日本', 'with "quotes" and \\ backslash', '</script>', 'line\nbreak', '\x00\x1f', 'a' * 200,
+                         # text that looks like JSON's own vocabulary
+                         'Avengers: Infinity War', 'got NaN (line 3)', 'x = -Infinity;', 'NaN', 'null', 'true', 'a: null, b: true', '[1, 2]',
+                         '{"k": 1}', '\\u0041', '\\n', 'tab\there', '/* comment */', '1e5', '// x'])
     if r in (6, 7) and depth < 3:
         return [json_native(rng, depth + 1) for _ in range(rng.randint(0, 4))]
     if r in (8, 9) and depth < 3:
-        return dict((rng.pick(['a', 'b', 'key', 'é', '', 'a b', 'z' * 20, '1']), json_native(rng, depth + 1)) for _ in range(rng.randint(0, 4)))
+        return dict((rng.pick(['a', 'b', 'key', 'é', '', 'a b', 'z' * 20, '1', 'is NaN ok', 'to Infinity and', 'null', '"q"']), json_native(rng, depth + 1)) for _ in range(rng.randint(0, 4)))
     return rng.pick(['x', 'y'])
 
 
@@ -295,7 +299,10 @@ def judge_basic_scalar(sh, rng):
 
 
 def tabular(rng):
-    shape = rng.pick(['flat-mapping', 'scalars', 'rows-of-mappings', 'rows-of-sequences'])
+    shape = rng.pick(['flat-mapping', 'scalars', 'rows-of-mappings', 'rows-of-sequences', 'empty'])
+    if shape == 'empty':
+        # degenerate tables: nothing to show is still something to render
+        return shape, rng.pick([[], (), {}, [{}], [[]], [()], [{}, {}]])
     cell = lambda: rng.pick(['x', 'a<b', 'q&r', 'caf\xe9', 7, 2.5, 'longer text here', True, '"quoted"', "it's"])
     if shape == 'flat-mapping':
         return shape, dict((k, cell()) for k in rng.sample(['alpha', 'beta', 'g<amma', 'd&elta', 'é'], rng.randint(1, 4)))
